@@ -3,7 +3,7 @@
 
 use crate::api::*;
 use crate::cli::{Args, Journal, Sink};
-use crate::iters::{build, recipe, Recipe};
+use crate::iters::{recipe, Recipe};
 use crate::model::Model;
 use crate::ops::*;
 use crate::rng::Rng;
@@ -140,8 +140,19 @@ pub fn check_arbitrary<Q: QueueApi>(pairs: &[(u32, i64)], via: Via, cont: &[Op])
     }
     // fully usable: a model-checked continuation
     let mut st = State { m: Model::from_snap(&s), q, order_suspended: false, expected_leaks: 0, used_drain_or_clear: false, tables_broken: false };
+    control::<Q>(&s, cont)?;
     continuation(&mut st, cont)?;
     Ok(true)
+}
+
+/// The same continuation on a queue with the same contents in the same slot order that was
+/// built from a vector (the same rebuild, no serde involved): what fails there as well is not a
+/// matter of deserialization and is reported under its own properties only.
+fn control<Q: QueueApi>(s: &crate::snap::Snap, cont: &[Op]) -> Result<(), Viol> {
+    let universe: Vec<u32> = (0..6).collect();
+    let pairs: Vec<(u32, i64)> = s.ent.iter().map(|e| (e.0, e.2)).collect();
+    let ctl = State::<Q>::construct(&Ctor::FromVec(pairs))?;
+    crate::hist::control_run(ctl, cont, &universe, true)
 }
 
 fn continuation<Q: QueueApi>(st: &mut State<Q>, cont: &[Op]) -> Result<(), Viol> {
@@ -174,7 +185,7 @@ fn continuation<Q: QueueApi>(st: &mut State<Q>, cont: &[Op]) -> Result<(), Viol>
 pub fn check_roundtrip<Q: QueueApi>(r: &Recipe, cont: &[Op]) -> Result<(), Viol> {
     reset_episode();
     let kind = Q::KIND;
-    let st = build::<Q>(r);
+    let st = crate::iters::build_checked::<Q>(r)?;
     let res = catch_unwind(AssertUnwindSafe(|| -> Result<(), Viol> {
         let js = st.q.to_json().map_err(|e| viol(kind, "roundtrip", "M-SERDE", format!("serialization failed: {}", e), vec![]))?;
         // same kind
@@ -236,6 +247,7 @@ fn finish_rt<Q2: QueueApi>(q: Q2, src: &Model, cont: &[Op]) -> Result<(), Viol> 
         return Err(viol(Q2::KIND, "roundtrip", "M-ORDER", d, vec![]));
     }
     let mut st = State { m, q, order_suspended: false, expected_leaks: 0, used_drain_or_clear: false, tables_broken: false };
+    control::<Q2>(&s, cont)?;
     continuation(&mut st, cont)
 }
 
